@@ -110,6 +110,7 @@ static int peer_closed_early_at;   /* agent closes before/while the request is w
 static int delivered;              /* reply bytes consumed by the module */
 static unsigned char reqbuf[2200]; static int req_len;
 static int nreads, nwrites, nselects, eintr_budget, short_io;
+static int batch_chunk;            /* batch mode: bytes accepted per write / send call (0 = all) */
 static int stale_errno_mode;       /* leave errno = EINTR around successful calls */
 static int sock_open, sock_closed, fd_out = 5;
 static int timeout_s;
@@ -232,6 +233,7 @@ ssize_t sim_write(int fd, const void *buf, size_t n) {
   if (eintr_budget > 0 && chance("write-eintr", 1, 14)) { eintr_budget--; errno = EINTR; logf_("write() = -1 EINTR"); return -1; }
   size_t k = n;
   if (short_io && k > 1 && chance("short-write", 1, 3)) k = 1 + choose("short-write-n", (int)k - 1);
+  if (batch_chunk > 0 && k > (size_t)batch_chunk) k = batch_chunk; /* batch mode: the socket takes this much per call */
   if (peer_closed_early_at >= 0 && req_len + (int)k > peer_closed_early_at) k = peer_closed_early_at - req_len;
   if (req_len + k < sizeof reqbuf) { memcpy(reqbuf + req_len, buf, k); }
   req_len += k;
@@ -574,6 +576,7 @@ static int batch(void) {
         char *sp = strchr(line + 2, ' '); if (!sp) _exit(0);
         int n1 = unhex(line + 2, (unsigned char *)a); a[n1] = 0; int n2 = unhex(sp + 1, (unsigned char *)b); b[n2] = 0;
         pam_user = a; cur_password = b; reply_len = 4; memcpy(reply, "\0\2OK", 4);
+        char *sp2 = strchr(sp + 1, ' '); batch_chunk = sp2 ? atoi(sp2 + 1) : 0;
       } else _exit(0);
       nfrags = 1; frags[0].upto = reply_len; frags[0].at_us = 0; close_after = reply_len;
       struct pam_handle h; int ret = -1; in_module = 1;
